@@ -29,6 +29,19 @@ type IntArgumentType int
 func (b IntArgumentType) Parse(*brigodier.StringReader) (any, error) { return 0, nil }
 func (b IntArgumentType) String() string                             { return "int" }
 
+var ResourceOrTagArgument brigodier.ArgumentType = &ResourceOrTagArgumentType{}
+
+// ResourceOrTagArgumentType represents the minecraft:resource_or_tag argument type.
+// It is distinct from RegistryKeyArgumentType (minecraft:resource) so that a
+// decoded node is encoded with the parser it was announced with.
+type ResourceOrTagArgumentType RegistryKeyArgumentType
+
+func (r *ResourceOrTagArgumentType) Parse(rd *brigodier.StringReader) (any, error) {
+	return rd.ReadString()
+}
+
+func (r *ResourceOrTagArgumentType) String() string { return "resource_or_tag_argument" }
+
 var ResourceOrTagKeyArgument brigodier.ArgumentType = &ResourceOrTagKeyArgumentType{}
 
 type ResourceOrTagKeyArgumentType RegistryKeyArgumentType
